@@ -240,8 +240,11 @@ def compare(prefix, cues, doc, acc, case, frames=True):
         acc.violation(f"{ID}.tags", "literal:" + "+".join(left), case, observed=otext, expected=etext,
                       note=f"cue {k}: a tag of the grammar is not recognised and stays in the text")
       else:
-        acc.violation(f"{prefix}.lines", "linecount" if etext.count("\n") != otext.count("\n") else "text", case,
-                      observed=otext, expected=etext, note=f"cue {k}: lines differ")
+        import html
+        dsc = "linecount" if etext.count("\n") != otext.count("\n") else "text"
+        if dsc == "text" and html.unescape(etext) == otext:
+          dsc = "text:character-reference-decoded"      # SubRip has no character references: '&amp;' in a file is five characters
+        acc.violation(f"{prefix}.lines", dsc, case, observed=otext, expected=etext, note=f"cue {k}: lines differ")
       outcome = "text-differs"
       continue
     for (c, et, syn), (_c2, ot) in zip(exp, o["chars"]):
@@ -534,7 +537,7 @@ def fam_tags(nslots):
 
 # --- lay-out
 
-PAYLOAD_STYLES = ["plain", "inline", "spanning", "indented"]
+PAYLOAD_STYLES = ["plain", "inline", "spanning", "indented", "amp-tail", "lt-tail"]
 
 
 def _payload(nlines, style, j):
@@ -547,6 +550,12 @@ def _payload(nlines, style, j):
     lines[-1] = lines[-1] + "</b>"
   elif style == "indented":
     lines = ["  " + ln + " " for ln in lines]
+  elif style == "amp-tail":
+    # an ampersand that starts no character reference is text; at the very end of a cue a streaming parser may hold it back
+    lines[0] = "R&D " + lines[0]
+    lines[-1] = lines[-1] + " Q&A"
+  elif style == "lt-tail":
+    lines[-1] = lines[-1] + " 1 <"
   return lines
 
 
@@ -605,7 +614,7 @@ BLUE = ["C", 0, 0, 255, 255]
 OUTER = [{"FontWeight": BOLD}, {"FontStyle": ITALIC}, {"TextDecoration": UNDER}, {"Color": RED},
          {"FontWeight": BOLD, "FontStyle": ITALIC}, {"Color": RED, "TextDecoration": UNDER}]
 INNER = [{"FontStyle": ITALIC}, {"Color": BLUE}, {"FontWeight": BOLD}]
-SPAN_SHAPES = ["plain", "styled", "nested2", "nested3", "adjacent", "styled-br"]
+SPAN_SHAPES = ["plain", "styled", "nested2", "nested3", "adjacent", "styled-br", "entity-like"]
 TIMINGS = ["sequential", "overlapping"]
 
 
@@ -624,6 +633,9 @@ def _p(j, shape, outer, inner, b, e):
     kids = [sp_([tnode("a "), sp_([tnode("b "), sp_([tnode(f"{w} c")], {"TextDecoration": UNDER}), tnode(" b")], inner), tnode(" a")], outer)]
   elif shape == "adjacent":
     kids = [sp_([tnode(f"{w} one")], outer), sp_([tnode("two")], inner)]
+  elif shape == "entity-like":
+    # document text that spells a character reference: SubRip has no references, the written characters are the text
+    kids = [sp_([tnode(f"{w} R&amp;D &lt;3")])]
   else:
     kids = [sp_([tnode(f"{w} up"), {"k": "br"}, tnode("down")], outer), {"k": "br"}, sp_([tnode("last")])]
   return node("p", kids, id=f"p{j}", b=b, e=e)
